@@ -66,7 +66,10 @@ _iov("C05", "Every slice handed out points into live memory",
      ["Woodpile.Props.C05.slice_guarded",
       "Woodpile.Props.C05.detached_anchored",
       "Woodpile.Props.C05.cache_holds_chunk",
+      "Woodpile.Props.C05.reachable_has_caps",
       "Woodpile.Props.C05.exposed_live",
+      "Woodpile.Props.C05.below_bump",
+      "Woodpile.Props.C05.no_overlap",
       "Woodpile.Props.C05.released_only_when_unreachable"],
      ["Woodpile.Props.C05"], ["C05"], ["A", "S", "T", "L", "R"],
      "Kernel-checked ownership invariant on the structural model (every exposed owned slice is guarded by an anchor holding its chunk; "
